@@ -4,7 +4,7 @@ import numpy as np
 import z3
 
 from sx import core as S, env as E, npshim, mat
-from checks.c12 import setup, conc_inputs, lin
+from checks.c12 import setup, conc_inputs, lin, nd_warm
 
 PROPERTY = "C11"
 REGIONS = ["row-reported", "column-forced", "second-fixpoint-iteration", "all-columns-removed", "all-rows-removed", "nothing-reducible",
@@ -47,7 +47,7 @@ def instantiations(tier, seed):
                         if seen > cap:
                             bx[j] = [-2, 3]
             for part in ("rows", "cols", "reduce"):
-                out.append({"A": A, "boxes": bx, "part": part})
+                out.append({"A": A, "boxes": bx, "part": part, "warm": k % 2 == 1})
         if len(A) * nc <= 4:
             out.append({"A": A, "boxes": ["sym"] * nc, "part": "reduce"})
     for mu in ("forced_off", "lost_solution"):
@@ -76,6 +76,8 @@ def run_inst(spec, run):
             out = {}
             iters["n"] = 0
             try:
+                if spec.get("warm"):
+                    nd_warm(P)
                 if spec["part"] == "rows":
                     out["rr"] = P.reducable_rows()
                 elif spec["part"] == "cols":
